@@ -433,6 +433,7 @@ func (a *Adversary) FairSuffix(target int64, maxSteps int) (steps int, ok bool) 
 				}
 			}
 			best := -1
+			atOf := map[int]string{}
 			for _, e := range n.Pool {
 				if e.From == i && !e.Byz {
 					continue
@@ -440,9 +441,24 @@ func (a *Adversary) FairSuffix(target int64, maxSteps int) (steps int, ok bool) 
 				if !(e.H == rs.Height || (e.H+1 == rs.Height && e.Kind == "precommit")) {
 					continue
 				}
+				// what "already offered" means depends on how old the message is for this node: stragglers
+				// of the previous height are only ever accepted in the new-height step and are offered once
+				// per height; votes and proposals of rounds the node left more than one round ago are
+				// accepted whenever they come and are offered once per round of the node; everything
+				// from the previous round on is offered again after every step change (it may have been
+				// dropped as too early). A real reactor does not resend what the peer already has either;
+				// resending a height's whole history at every step made a suffix after a 60-round height
+				// spend its step budget on re-deliveries (seen in thorough).
+				at := at
+				if e.H+1 == rs.Height {
+					at = fmt.Sprintf("%d", rs.Height)
+				} else if e.R < rs.Round-1 {
+					at = fmt.Sprintf("%d/%d", rs.Height, rs.Round)
+				}
 				if a.offered[i][e.ID] == at {
 					continue
 				}
+				atOf[e.ID] = at
 				if a.Withhold != nil && a.Withhold(e, i) {
 					continue
 				}
@@ -451,7 +467,7 @@ func (a *Adversary) FairSuffix(target int64, maxSteps int) (steps int, ok bool) 
 				}
 			}
 			if best >= 0 {
-				a.offered[i][best] = at
+				a.offered[i][best] = atOf[best]
 				n.Deliver(i, best)
 				progressed = true
 				break
